@@ -111,8 +111,14 @@ PROPS = {
     },
     'C14': {'verus': [], 'kinds': FUNCTIONAL},
     'C15': {'verus': [r'^laws :: fn law_c15_', r'^laws :: fn law_c06_',
-                      r'^(date|time|timestamp|interval|oracle) :: impl (Date|Time|Timestamp|IntervalYM|IntervalDT) / fn (try_from_days|try_from_usecs|try_from_months)$'],
-            'kinds': FUNCTIONAL},
+                      r'^(date|time|timestamp|interval|oracle) :: impl (Date|Time|Timestamp|IntervalYM|IntervalDT) / fn (try_from_days|try_from_usecs|try_from_months)$',
+                      # the human-readable payload is decoded by the shared parser and ends in these checked constructors
+                      r' :: impl TryFrom<&?NaiveDateTime> for (Date|Time|Timestamp|IntervalYM|IntervalDT) / fn try_from$',
+                      r'^date :: impl Date / fn (try_from_ymd|validate_ymd|is_valid)$', r'^time :: impl Time / fn (try_from_hms|validate_hms|is_valid)$',
+                      r'^interval :: impl IntervalYM / fn (try_from_ym|is_valid_ym|is_valid_months)$',
+                      r'^interval :: impl IntervalDT / fn (try_from_dhms|is_valid|is_valid_usecs)$',
+                      r'^oracle :: impl Date / fn (new|try_from_usecs|is_valid_date)$', r'^oracle :: impl From<Timestamp> for Date / fn from$'],
+            'kinds': FUNCTIONAL + RANGE},
     'C16': {
         'verus': [r'^oracle :: ', r'^laws :: fn law_c16_', r'^spec :: proof fn lemma_(round_sec|floor_units|day_shift)$'],
         'kinds': FUNCTIONAL + RANGE,
